@@ -89,6 +89,9 @@ C11_Frame == Step(Frame)
 C11_IdsDistinct == \A d1, d2 \in DOMAIN IdOf : \A s1 \in DOMAIN IdOf[d1], s2 \in DOMAIN IdOf[d2] :
                       (<<d1, s1>> # <<d2, s2>>) => IdOf[d1][s1] # IdOf[d2][s2]
 
+(* the same step properties in one pass over the enabled actions (quick tier) *)
+C11_AllSteps == \A a \in EnabledActs(st) : LET r == Apply(st, a) IN Roles(st, a, r) /\ Mintable(st, a, r) /\ TakenIdsRefuse(st, a, r) /\ Frame(st, a, r) /\ WriteOnce(st, r)
+
 ASSUME PrintT(<<"INST", ToJson(InstBase(RawPayloads, <<"r1">>))>>)
 Dump == DumpNode(st, EnabledActs(st))
 =============================================================================
